@@ -23,6 +23,13 @@ open RdfModel RdfModel.C04
 #print axioms RdfModel.C04.facts_path_conditions
 #print axioms RdfModel.C04.facts_issuer
 #print axioms RdfModel.C04.facts_sorts
+#print axioms RdfModel.C04.opts_hash_last_set_wins
+#print axioms RdfModel.C04.opts_hash_unset_keeps
+#print axioms RdfModel.C04.opts_prov_last_set_wins
+#print axioms RdfModel.C04.opts_prov_unset_keeps
+#print axioms RdfModel.C04.opts_build_last_set_wins
+#print axioms RdfModel.C04.opts_build_unset_keeps
+#print axioms RdfModel.C04.opts_default
 #print axioms RdfModel.C04.Witness.wf
 #print axioms RdfModel.C04.heap_complete_0
 #print axioms RdfModel.C04.heap_complete_1
